@@ -271,7 +271,8 @@ def run_store(tape, out, fs, root, estore, kind):
             op = 'flush'
         else:
             ops = ['append', 'append', 'flush', 'overwrite', 'delete', 'clear', 'reopen',
-                   'pickle', 'kill', 'delete', 'append', 'reopen_limited', 'refused_append']
+                   'pickle', 'kill', 'delete', 'append', 'reopen_limited', 'refused_append',
+                   'refused_delete']
             op = tape.choice('op', ops)
             if op == 'reopen_limited' and array_level:
                 op = 'reopen'
@@ -299,6 +300,23 @@ def run_store(tape, out, fs, root, estore, kind):
                 out.probes['truncate_then_append'] += 1
             model = new
             last_mut = 'append'
+        elif op == 'refused_delete':
+            # deleting anything but the last batch (or a batch the store does not hold) is
+            # refused; a refused delete must not have touched the file or the report
+            if array_level or limited[0] or n == 0:
+                continue
+            cands = list(range(0, n - 1)) + [n, n + 1]
+            i = cands[tape.int('refused_delete_index', 0, len(cands) - 1)]
+            h.begin('refused-delete', [model])
+            try:
+                del store[i]
+            except (IndexError, ValueError, KeyError):
+                out.probes['delete_refused'] += 1
+            else:
+                out.violate('report', 'bad-delete-accepted', index=i, n_batches=n,
+                            where='op %d' % h.j)
+                return info
+            h.end()
         elif op == 'refused_append':
             # a fault at the API: a batch the store must refuse (other dtype / other row shape).
             # The operation fails, nothing is written, and the store keeps reporting exactly
